@@ -32,7 +32,9 @@ Record request := {
   rq_postings : list posting;     (* create *)
   rq_unb : bool;                  (* create: sources allow unbounded overdraft; revert: force *)
   rq_revert : nat;                (* revert: id of the transaction to revert *)
-  rq_target_tx : option nat       (* metadata write: on transaction id / on an account (None) *)
+  rq_target_tx : option nat;      (* metadata write: on transaction id / on an account (None) *)
+  rq_meta : N                     (* metadata write: what is written where -- an interned name of (target type, target
+                                     id, metadata map) / (target type, target id, key); 0 for transactions *)
 }.
 
 (* a log entry; [e_uid] is a ghost serial number, [e_prev] the uid of the entry whose hash went into this
@@ -48,11 +50,12 @@ Record entry := {
   e_ik : N;
   e_reverts : option nat;
   e_owner : tid;
-  e_unb : bool    (* ghost: the script grants its sources unbounded overdraft / the revert is forced *)
+  e_unb : bool;   (* ghost: the script grants its sources unbounded overdraft / the revert is forced *)
+  e_meta : N      (* metadata entry: target and content ([rq_meta] of the request that wrote it); 0 otherwise *)
 }.
 
 Inductive eclass := EIkBusy | EConflict | ENotFound | EAlreadyReverted | ERevertOccurring | EInsufficient
-                  | ENoPostings | EKindMismatch
+                  | ENoPostings | EKeyReused
                   | ELockCancelled    (* the request's context was done while it waited for its account locks *)
                   | EStoreRead        (* a store read of the write path failed (transient error, not "not found") *)
                   | ECompilationFailed. (* exec's ErrCompilationFailed; here: ResolveResources could not read account metadata *)
@@ -295,7 +298,19 @@ Definition build_entry (t : tid) (th : thread) (u : upd) : entry :=
      e_ik := rq_ik rq;
      e_reverts := match rq_kind rq with KRevert => Some (rq_revert rq) | _ => None end;
      e_owner := t;
-     e_unb := t_unb th |}.
+     e_unb := t_unb th;
+     e_meta := if is_tx_kind (rq_kind rq) then 0%N else rq_meta rq |}.
+
+(* executionContext.run: the log stored under the request's idempotency key is answered again only when it IS the
+   outcome of this request -- CreateTransaction: a new-transaction log; RevertTransaction: a revert log of the same
+   transaction; SaveMeta / DeleteMetadata: a log of the same kind with the same target and the same metadata / key *)
+Definition is_outcome_of (rq : request) (e : entry) : bool :=
+  match rq_kind rq, e_kind e with
+  | KCreate, KCreate => true
+  | KRevert, KRevert => match e_reverts e with Some x => Nat.eqb x (rq_revert rq) | None => false end
+  | KSaveMeta, KSaveMeta | KDelMeta, KDelMeta => N.eqb (e_meta e) (rq_meta rq)
+  | _, _ => false
+  end.
 
 Definition entry_persisted (log : list entry) (e : entry) : bool := existsb (fun x => Nat.eqb (e_uid x) (e_uid e)) log.
 
@@ -326,17 +341,12 @@ Definition resume (s : state) (t : tid) : option state :=
       | PIkBusy => ok (finish t th (RErr EIkBusy) false false false true u)
       | PIkTaken => ok (set_th t (with_pc th (PIkLookup (find_by_ik (persisted s) (rq_ik rq)))) u)
       | PIkLookup (Some e) =>
-          (* replay: the stored outcome is answered again (and published again when not a dry run) *)
-          if match e_kind e, rq_kind rq with
-             | KCreate, KCreate | KRevert, KRevert | KSaveMeta, KSaveMeta | KDelMeta, KDelMeta => true
-             | _, _ => false end
+          (* replay: the stored outcome is answered again (and published again when not a dry run); a key that
+             stored the outcome of ANOTHER request is refused (ErrIdempotencyKeyReused): nothing is executed, written
+             or published; the deferred functions release the key and, for a revert, its reservation *)
+          if is_outcome_of rq e
           then ok (finish t th (ROk (e_txid e)) (negb (rq_dry rq)) true false true u)
-          else if is_tx_kind (rq_kind rq)
-          (* the stored entry is of another kind: CreateTransaction / RevertTransaction type-assert the payload and
-             panic (answered 500); SaveMeta / DeleteMetadata do not look at it: they report success, and publish,
-             although nothing was written *)
-          then ok (finish t th (RErr EKindMismatch) false true false true u)
-          else ok (finish t th (ROk None) (negb (rq_dry rq)) true false true u)
+          else ok (finish t th (RErr EKeyReused) false true false true u)
       | PIkLookup None => ok (enter_exec t th u)
       | PRefBusy => ok (finish t th (RErr EConflict) false true false true u)
       | PRefTaken => ok (set_th t (with_pc th (PRefLookup (has_ref (persisted s) (rq_ref rq)))) u)
